@@ -249,7 +249,38 @@ func init() {
 						"fieldPaths": []interface{}{"data.k"}, "options": Obj{"delimiter": ",", "index": float64(insertAt)}})
 					desc.(map[string]interface{})["insertIndex"] = insertAt
 				}
+				rejNs := ""
+				if r.Intn(2) == 0 {
+					// a reject entry that names a NAMESPACE only (`default` included: the absent namespace is the default one): a
+					// resource any of whose ids — original or current — is in it is left alone
+					rejNs = pickS(r, []string{"default", "default", "prod", "stage", "old"})
+					k["replacements"].([]interface{})[0].(Obj)["targets"].([]interface{})[0].(Obj)["reject"] = []interface{}{Obj{"namespace": rejNs}}
+					desc.(map[string]interface{})["rejectNamespace"] = rejNs
+				}
+				effNs := func(ns string) string {
+					if ns == "" {
+						return "default"
+					}
+					return ns
+				}
 				predict = func(x *res, out Obj) (string, bool) {
+					if x.kind == "Deployment" && rejNs != "" {
+						cur := x.ns
+						if layerNs != "" {
+							cur = layerNs
+						}
+						if effNs(x.ns) == rejNs || effNs(cur) == rejNs {
+							conts, _ := getPath(map[string]interface{}(out), ipath(nil, "spec", "template", "spec", "containers"))
+							cl, _ := conts.([]interface{})
+							for _, c := range cl {
+								cm, _ := c.(map[string]interface{})
+								if cm["image"] == "COPIED" {
+									return fmt.Sprintf("replacement target rejects namespace %s: %s (namespace %q, then %q) was written all the same", rejNs, x.name, x.ns, cur), false
+								}
+							}
+							return "", true
+						}
+					}
 					if x.kind == "ConfigMap" && insertAt != 0 {
 						want := "v,COPIED"
 						if insertAt < 0 {
@@ -351,7 +382,7 @@ func init() {
 				}
 				if what, ok := predict(x, ds[0]); !ok {
 					cls := []string{"patch-target-selection", "image-selection", "replicas-selection", "replacement-selection"}[mode]
-					if mode == 3 && x.kind != "ConfigMap" {
+					if mode == 3 && x.kind != "ConfigMap" && !strings.HasPrefix(what, "replacement target rejects") {
 						// recogniser of finding 5: the [name=v] value is used as an UNANCHORED regular expression, so
 						// an element whose name merely CONTAINS v is selected as well
 						sel := desc.(map[string]interface{})["element"].(string)
